@@ -34,6 +34,9 @@ fn nt_c07(p: &Plan, o: &RunOut) -> bool {
 fn nt_c08(p: &Plan, o: &RunOut) -> bool {
     !matches!(p.mode, crate::plan::Mode::Net) || o.counters.injected >= 5
 }
+fn nt_c09(_p: &Plan, o: &RunOut) -> bool {
+    o.counters.sent_by_kind[crate::mirror::K_CHECKSUM as usize] >= 3 && o.probes.rollbacks >= 1
+}
 fn nt_c12(_p: &Plan, o: &RunOut) -> bool {
     o.probes.events.get("synchronized").copied().unwrap_or(0) >= 1 && (faults_fired(o) >= 1 || o.counters.injected >= 1)
 }
@@ -138,6 +141,18 @@ PropSpec {
     required_probes: &["payloads_decoded", "injected_datagrams", "twin_runs", "undecodable_datagrams", "forged_from_known_address", "forged_from_unknown_address"],
     assumptions: &["a forged packet with the right address, the right magic and a well-formed envelope may refresh keep-alive timers; equality with the twin is demanded on inputs, states and connection events, not on timer-driven retransmission instants", "wrong-magic packets are injected only after the handshake with that address completed (before that the endpoint cannot know the right magic)"],
     twin: Some(crate::twins::c08_twin),
+},
+PropSpec {
+    id: "C09",
+    level: "exploration",
+    quick_runs: 8000,
+    thorough_runs: 200_000,
+    default_seed: 909,
+    rule: "half of the runs: C01's space with desync detection on (interval 1..=12, sparse on/off, loss/duplication/reordering also of ChecksumReports) and deterministic games: no DesyncDetected may ever appear. Other half: saving not sparse, one peer's game computes different states from a seeded frame F on (consistently across its own re-simulations), ChecksumReports exempt from loss: every peer must receive DesyncDetected for a frame >= F involving the diverging peer before 1 s after its confirmed frame passes F + 4*interval + window + delay, carrying checksums the two peers really saved for that frame. Non-trivial = >= 3 checksum reports delivered and >= 1 rollback; distinct = distinct executed-schedule hash",
+    nontrivial: nt_c09,
+    required_probes: &["desync_events", "rollbacks", "drop_random", "game_perturbations_planned"],
+    assumptions: BASE_ASSUME,
+    twin: None,
 },
 PropSpec {
     id: "C12",
